@@ -12,7 +12,8 @@
      4. bridges: the shared code at instance [wm] IS Model/Registry.v's gather_families and
         Model/Text.v's encoder, and what the two builds print relates as the per-run check
         assumes;
-     5. the defaults table (unset protobuf field = plain initial value);
+     5. the simulation relation R (same getters) and its characterisation getter by getter; the
+        defaults table itself (unset protobuf field = plain initial value) is stated in Props/C16.v;
      6. straight-line programs over the interface. *)
 Require Import PV.Base.Prelude PV.Base.F64 PV.Base.Utf8 PV.Base.SortFacts.
 Require Import PV.Model.Proto PV.Model.Desc PV.Model.Value PV.Model.Registry PV.Model.Text PV.Model.Hist PV.Model.Vec PV.Model.World PV.Model.DataModel.
